@@ -71,7 +71,14 @@ impl Scheduler {
                 })));
                 while let Ok(Some((ids, k))) = rx.recv() {
                     for _ in 0..k {
-                        let r = ids.next().map_err(|e| format!("{e:?}"));
+                        // a panic inside next() (e.g. an `expect` on a raced state) is a result, not a hang
+                        let r = match std::panic::catch_unwind(std::panic::AssertUnwindSafe(|| ids.next())) {
+                            Ok(r) => r.map_err(|e| format!("{e:?}")),
+                            Err(p) => Err(format!(
+                                "panic: {}",
+                                p.downcast_ref::<String>().cloned().or_else(|| p.downcast_ref::<&str>().map(|s| s.to_string())).unwrap_or_default()
+                            )),
+                        };
                         *in_call[me].lock().unwrap() = 0;
                         results[me].lock().unwrap().push(r);
                     }
